@@ -63,6 +63,7 @@ type Eval struct {
 	probing                         int
 	allowLocals                     int
 	skolemSet                       map[string]bool
+	pkgPath                         string // package of the contract being evaluated
 }
 
 var qNameRe = regexp.MustCompile(`q_[A-Za-z0-9_]*_\d+`)
@@ -76,7 +77,7 @@ func (ev *Eval) heap() *Heap {
 
 // newEval builds an evaluator whose names are the parameters (and named results) of fn.
 func (vc *VC) newEval(fn *ssa.Function, cur, old Heap, li *loopInfo) *Eval {
-	ev := &Eval{vc: vc, cur: cur.clone(), old: old.clone(), env: map[string]EVal{}, bound: map[string]EVal{}, li: li}
+	ev := &Eval{vc: vc, cur: cur.clone(), old: old.clone(), env: map[string]EVal{}, bound: map[string]EVal{}, li: li, pkgPath: contractPkg(vc.root().ct)}
 	for _, p := range fn.Params {
 		ev.env[p.Name()] = EVal{T: p.Type(), Terms: vc.val(p)}
 	}
@@ -692,6 +693,24 @@ func (ev *Eval) expr(e Expr) (EVal, error) {
 		}
 		return ev.selField(base, x.Name)
 	case *EIndex:
+		// old($ghost)[key]: the ghost map of the old state at a key evaluated in the current state
+		if c, ok := x.X.(*ECall); ok && c.Fn == "old" && len(c.Args) == 1 {
+			if id, ok := c.Args[0].(*EIdent); ok && strings.HasPrefix(id.Name, "$") {
+				name, g, ok := ev.vc.ghostHeap(&ev.old, id.Name)
+				if !ok || g.Key == "" {
+					return EVal{}, fmt.Errorf("%s is not a ghost map", id.Name)
+				}
+				k, err := ev.expr(x.I)
+				if err != nil {
+					return EVal{}, err
+				}
+				kt := ev.rv(k)
+				if len(kt) != 1 {
+					return EVal{}, fmt.Errorf("ghost map key must be scalar")
+				}
+				return ghostVal(g.Val, sel(name, kt[0])), nil
+			}
+		}
 		if id, ok := x.X.(*EIdent); ok && strings.HasPrefix(id.Name, "$") {
 			name, g, ok := ev.vc.ghostHeap(ev.heap(), id.Name)
 			if !ok || g.Key == "" {
@@ -1383,8 +1402,18 @@ func (ev *Eval) resolveTypeName(e Expr) (types.Type, error) {
 	}
 	switch x := e.(type) {
 	case *EIdent:
+		// the package the contract was written in
+		if ev.pkgPath != "" {
+			for _, p := range vc.P.Prog.AllPackages() {
+				if p.Pkg.Path() == ev.pkgPath {
+					if t := look(p.Pkg, x.Name); t != nil {
+						return t, nil
+					}
+				}
+			}
+		}
 		fn := vc.root().fn
-		if fn.Pkg != nil {
+		if fn.Pkg != nil && ev.pkgPath == "" {
 			if t := look(fn.Pkg.Pkg, x.Name); t != nil {
 				return t, nil
 			}
